@@ -92,7 +92,7 @@ func Run(c *vf.Check) {
 	vf.Parallel(len(cfgs), func(i int) { runCfg(c, cfgs[i]) })
 	c.Finish("engine E/S: for every (t,n) with 1<=t<=n<=N (N=5 Ed25519, 3-4 other families; thorough 7/4-5), secrets {0,1,q-1,r1}, bases {nil, explicit B, independent g1}, dealer polynomials with fixed seeded coefficients (one variant with zero top coefficient): "+
 		"every subset of the n shares x every arrangement (all permutations for |subset|<=4, else sorted/reversed/rotated/shuffled) x nil-gap patterns {compact, at own index, leading nil, trailing nils} x {no extra, one share repeated}; RecoverSecret/RecoverCommit/RecoverPriPoly/RecoverPubPoly must return the dealer's secret/commitment/all coefficients when >= t distinct shares are present and an error otherwise, twice with identical bytes, leaving the input shares unchanged; "+
-		"PriPoly.Eval = math/big model; PubPoly.Eval(i) = Commit(PriPoly.Eval(i)); Check over the share alphabet {honest, +1, other index's value, 0, index >= n on the polynomial}; Add/Mul commute with Eval and Commit. "+
+		"PriPoly.Eval = math/big model; PubPoly.Eval(i) = Commit(PriPoly.Eval(i)); Check over the share alphabet {honest, +1, other index's value, 0, index >= n on the polynomial}; Add/Mul commute with Eval and Commit; one secret polynomial committed to every sequence of up to 3 bases from {nil, B, g1, g2}: every commitment polynomial belongs to the base asked for. "+
 		"Large n in {8,12,16,21,24,32} (thorough up to 64), t in {1,2,n/2,n/2+1,n-1,n} on Ed25519: a menu of subset shapes {first t, last t, evens-then-odds, middle t, all n, t-1 (refused), t+1} in sorted / reversed / rotated / shuffled order, compact and at-own-index. non-trivial = subset size within [t-1, n] with a non-identity arrangement or gaps; distinct by (config, arrangement)",
 		[]string{"math/big polynomial evaluation is the reference", "Go map iteration order inside Recover* is not controlled; every recovery is executed twice and must give identical bytes"}, nil)
 }
@@ -291,6 +291,67 @@ func runCfg(c *vf.Check, k cfg) {
 			}
 		}
 	})
+	// one secret polynomial committed to several bases one after the other (every sequence of up to 3 bases): each
+	// commitment polynomial belongs to the base it was asked for, whatever was asked before
+	if k.base == "nil" && !k.large {
+		bases := []struct {
+			name string
+			p    kyber.Point
+		}{{"nil", nil}, {"B", g.Point().Base()}, {"g1", m.Gens[1]}, {"g2", m.Gens[len(m.Gens)-1]}}
+		depth := 3
+		if g.Slow {
+			depth = 2
+		}
+		var seqs [][]int
+		var gen func(pre []int)
+		gen = func(pre []int) {
+			if len(pre) > 1 {
+				seqs = append(seqs, append([]int{}, pre...))
+			}
+			if len(pre) == depth {
+				return
+			}
+			for b := range bases {
+				gen(append(pre, b))
+			}
+		}
+		gen(nil)
+		c.Case(k.String()+": Commit to several bases in turn", pk+"/Commit-sequence", func(x *vf.Ctx) {
+			for _, seq := range seqs {
+				var sc []kyber.Scalar
+				for _, v := range coeffs {
+					sc = append(sc, alpha.ToScalar(g.Scalar(), v, q))
+				}
+				pp := share.CoefficientsToPriPoly(g.Group, sc)
+				var names []string
+				for _, b := range seq {
+					names = append(names, bases[b].name)
+					eb := bases[b].p
+					if eb == nil {
+						eb = g.Point().Base()
+					}
+					cp := pp.Commit(bases[b].p)
+					c.Eval(1)
+					ib, cs := cp.Info()
+					if (ib == nil) != (bases[b].p == nil) || (ib != nil && !ib.Equal(eb)) {
+						x.Failf(pk+"/Commit-sequence", "%s: after Commit to %v in turn, the last commitment polynomial reports another base", k.String(), names)
+						return
+					}
+					for j := range cs {
+						if !cs[j].Equal(g.Point().Mul(sc[j], eb)) {
+							x.Failf(pk+"/Commit-sequence", "%s: after Commit to %v in turn, coefficient %d of the last commitment polynomial is not coeff*base", k.String(), names, j)
+							return
+						}
+					}
+					if !cp.Eval(0).V.Equal(g.Point().Mul(pp.Eval(0).V, eb)) || !cp.Check(pp.Eval(1)) {
+						x.Failf(pk+"/Commit-sequence", "%s: after Commit to %v in turn, the last commitment polynomial does not evaluate to share*base / Check disagrees", k.String(), names)
+						return
+					}
+				}
+				c.Nontrivial(k.String() + fmt.Sprint(names))
+			}
+		})
+	}
 	wantSecret, _ := poly.Secret().MarshalBinary()
 	wantCommit := fmod.Enc(pub.Commit())
 	var wantCoeffs, wantCommits [][]byte
